@@ -92,10 +92,12 @@ theorem shape_canDivide (lo hi df : Nat) :
     canDivide lo hi df = decide (LdiffShape.canDivideL lo hi ≥ LdiffShape.canDivideR df) := by
   unfold canDivide; rfl
 
-/-- **shape obligation**: the extractor recognised every statement (including the three guards
+/-- **shape obligation**: the extractor recognised every statement (`diff.getRange` has exactly the
+branches of `Index.getRange`: a node answers hash+count and lists its elements iff requested, no
+node answers elements + their hash — no size- or limit-dependent branch; the three guards
 `… && canDivide(…)` / `|| !canDivide(…)` of fix-width), and the generated arithmetic is the model's
 arithmetic. -/
-theorem ldiffShape_ok : LdiffShape.shapeOk = true ∧
+theorem ldiffShape_ok : LdiffShape.shapeOk = true ∧ LdiffShape.getRangeShapeOk = true ∧
     (∀ lo hi df, 0 < df → df < M → LdiffShape.align lo hi df = align lo hi df ∧
       LdiffShape.gbAlign lo hi df = align lo hi df) ∧
     (∀ lo hi df, perRange lo hi df =
@@ -109,6 +111,6 @@ theorem ldiffShape_ok : LdiffShape.shapeOk = true ∧
       (if b = df - 1 then LdiffShape.gbLastTo (LdiffShape.gbTo lo b (perRange lo hi df)) (align lo hi df)
        else LdiffShape.gbTo lo b (perRange lo hi df)) = (childRange lo hi df b).2) ∧
     (∀ lo hi df, canDivide lo hi df = decide (LdiffShape.canDivideL lo hi ≥ LdiffShape.canDivideR df)) :=
-  ⟨by decide, shape_align, shape_perRange, shape_loop, shape_tuple, shape_canDivide⟩
+  ⟨by decide, by decide, shape_align, shape_perRange, shape_loop, shape_tuple, shape_canDivide⟩
 
 end AnySync.Ldiff
